@@ -27,6 +27,11 @@ func runIdentity(w *World, rs *RunSpec) {
 	cfg := drawTunnelCfg(c, false)
 	cfg.Carrier.LatC2S, cfg.Carrier.LatS2C = 0, 0
 	cfg.OpenMD = GenMD(c, 3, false)
+	// every other forward tunnel is opened through a stub whose client stream
+	// interceptor adds metadata to the opening call: the tunnel's opening
+	// metadata is what went out, not what the caller's context held
+	cfg.Intercept = len(cfg.OpenMD)%2 == 0
+	w.Desc["stub_interceptor"] = cfg.Intercept
 	describeTunnel(w, cfg)
 	t, err := w.OpenTunnel(cfg)
 	if err != nil {
@@ -101,6 +106,9 @@ func expectedOpenMD(t *Tunnel) metadata.MD {
 		md.Set("sim-key", fmt.Sprint(t.Cfg.Key))
 	}
 	md.Set("grpctunnel-negotiate", "on")
+	if t.Cfg.Intercept && t.Car != nil && t.Car.Intercept && t.RevServer == nil && t.Outer == nil {
+		md.Set("sim-intercepted", "by-the-stub")
+	}
 	return md
 }
 
